@@ -58,6 +58,9 @@ type SchedConfig struct {
 	Interval      time.Duration   // how far one advance moves the fake clock
 	MaxAdvances   int
 	MaxSteps      int
+	// YieldOnUnlock makes every lock release a scheduling point too: another task may run between the release and
+	// whatever the releasing task does next with what it read under the lock
+	YieldOnUnlock bool
 }
 
 type scheduler struct {
@@ -320,7 +323,34 @@ func LockRelease(ls *LockState, write bool) {
 	} else {
 		ls.readers--
 	}
+	after := w.sched.cfg.YieldOnUnlock && !w.sched.killed
 	w.unlock()
+	if after {
+		w.yieldIfLive("unlock:" + ls.Name)
+	}
+}
+
+// yieldIfLive is a scheduling point that never raises the kill sentinel itself (releases run in deferred calls,
+// also while a killed task unwinds).
+//
+//go:norace
+func (w *World) yieldIfLive(kind string) {
+	s := w.sched
+	gid := goid()
+	w.lock()
+	t := s.byGid(gid)
+	if t == nil || s.killed || t.killed {
+		w.unlock()
+		return
+	}
+	t.kind = kind
+	t.want = nil
+	t.wantW = false
+	t.parked = true
+	w.unlock()
+	raceDisable()
+	<-t.resume
+	raceEnable()
 }
 
 //go:norace
